@@ -539,6 +539,35 @@ def ias15():
     return {n: table1(src, n, k) for n, k in [("h", 8), ("rr", 28), ("c", 21), ("d", 21), ("w", 8)]}
 
 
+# ----------------------------------------------------------------------------- BS sequence / extrapolation (text checked)
+def bs():
+    src = strip_comments(read("integrator_bs.c"))
+    m = re.findall(r"static\s+const\s+int\s+sequence_length\s*=\s*(\d+)\s*;", src)
+    if len(m) != 1:
+        die("bs: sequence_length")
+    n = int(m[0])
+    e = re.findall(r"ri_bs->sequence\[k\]\s*=\s*([^;]+);", src)
+    if len(e) != 1:
+        die("bs: sequence assignment not unique")
+    mm = re.match(r"^\s*(\d+)\s*\*\s*k\s*\+\s*(\d+)\s*$", e[0])
+    if not mm:
+        die("bs: sequence formula %r" % e[0])
+    seq = [int(mm.group(1)) * k + int(mm.group(2)) for k in range(n)]
+    flat = re.sub(r"\s+", "", src)
+    if "doubler=1./((double)ri_bs->sequence[j]);ri_bs->coeff[j]=r*r;" not in flat:
+        die("bs: coeff[j] is no longer (1/sequence[j])^2")
+    ext = re.sub(r"\s+", "", func_body(src, "extrapolate"))
+    want = ("double*consty1=ode->y1;double*constC=ode->C;double**constD=ode->D;doubleconstlength=ode->length;"
+            "for(intj=0;j<k;++j){doublexi=coeff[k-j-1];doublexim1=coeff[k];doublefacC=xi/(xi-xim1);doublefacD=xim1/(xi-xim1);"
+            "for(inti=0;i<length;++i){doubleCD=C[i]-D[k-j-1][i];C[i]=facC*CD;D[k-j-1][i]=facD*CD;}}"
+            "for(inti=0;i<length;++i){y1[i]=D[0][i];}for(intj=1;j<=k;++j){for(inti=0;i<length;++i){y1[i]+=D[j][i];}}")
+    if ext != want:
+        die("bs: extrapolate() changed")
+    if "doubleCD=odes[s]->y1[i];odes[s]->C[i]=CD;odes[s]->D[k][i]=CD;" not in flat:
+        die("bs: C/D initialisation changed")
+    return seq
+
+
 def main():
     hdr = strip_comments(read("rebound.h"))
     L = []
@@ -603,6 +632,8 @@ def main():
     w("\n(* ---- integrator_ias15.c: Gauss-Radau tables *)")
     for k, v in ias15().items():
         w("Definition ias15_%s : list Z := %s." % (k, zlist([scaled(x, "ias15_" + k) for x in v])))
+    w("\n(* ---- integrator_bs.c: step-number sequence; coeff[j] = (1/sequence[j])^2 and the C/D recursion of extrapolate() are checked textually *)")
+    w("Definition bs_sequence : list Z := %s." % zlist(bs()))
     os.makedirs(os.path.dirname(OUT), exist_ok=True)
     tmp = OUT + ".tmp%d" % os.getpid()
     with open(tmp, "w") as f:
